@@ -54,6 +54,94 @@ def small_grammar(depth, leaves):
         out.append({"k": "Not", "ch": [a], "id": None})
     return out
 
+# ---- rule dictionaries (Imply.from_cicJE)
+RULES = ["REQUIRES_ALL", "REQUIRES_ANY", "ONE_OR_NONE", "FORBIDS_ALL", "REQUIRES_EXCLUSIVELY"]
+def gen_cic(rng):
+    items = list("abcdefg")
+    def comps(kmin=1, kmax=3):
+        return [{"id": x} for x in rng.sample(items, rng.randint(kmin, kmax))]
+    cnt = [0]
+    def oid():
+        cnt[0] += 1
+        return f"K{cnt[0]}" if rng.random() < 0.5 else None
+    d = {"consequence": {"ruleType": rng.choice(RULES), "components": comps(1, 4)}}
+    i = oid()
+    if i: d["consequence"]["id"] = i
+    i = oid()
+    if i: d["id"] = i
+    if rng.random() < 0.8:
+        subs = []
+        for _ in range(rng.choice([0, 1, 1, 2, 3])):
+            sc = {"components": comps()}
+            if rng.random() < 0.7: sc["relation"] = rng.choice(["ALL", "ANY"])
+            i = oid()
+            if i: sc["id"] = i
+            subs.append(sc)
+        d["condition"] = {"subConditions": subs}
+        if rng.random() < 0.7: d["condition"]["relation"] = rng.choice(["ALL", "ANY"])
+        i = oid()
+        if i: d["condition"]["id"] = i
+    return d
+
+def cic_sem(d, env):
+    """documented meaning of a rule dictionary over 0/1 items"""
+    c = d["consequence"]; vals = [env[x["id"]] for x in c["components"]]; n = sum(vals)
+    cons = {"REQUIRES_ALL": n == len(vals), "REQUIRES_ANY": n >= 1, "ONE_OR_NONE": n <= 1, "FORBIDS_ALL": n == 0, "REQUIRES_EXCLUSIVELY": n == 1}[c["ruleType"]]
+    subs = d.get("condition", {}).get("subConditions", []) if "condition" in d else []
+    if not subs:
+        return int(cons)
+    def rel(x, vs):
+        return all(vs) if x.get("relation", "ALL") == "ALL" else any(vs)
+    inner = [rel(s_, [env[x["id"]] for x in s_["components"]]) for s_ in subs]
+    cond = inner[0] if len(inner) == 1 else rel(d["condition"], inner)
+    return int((not cond) or cons)
+
+def cic_term(d, it):
+    def o(x): return opt(x, it.s)
+    def ids(cs): return lst(it.s(c["id"]) for c in cs)
+    cond = d.get("condition")
+    subs = cond.get("subConditions", []) if cond else []
+    return (f"(mkCic {o(d.get('id'))} {b(cond is not None)} {b((cond or {}).get('relation', 'ALL') == 'ALL')} {o((cond or {}).get('id'))} "
+            f"{lst(f'(mkSub {b(s_.get(chr(114)+chr(101)+chr(108)+chr(97)+chr(116)+chr(105)+chr(111)+chr(110), chr(65)+chr(76)+chr(76)) == chr(65)+chr(76)+chr(76))} {ids(s_[chr(99)+chr(111)+chr(109)+chr(112)+chr(111)+chr(110)+chr(101)+chr(110)+chr(116)+chr(115)])} {o(s_.get(chr(105)+chr(100)))})' for s_ in subs)} "
+            f"{d['consequence']['ruleType']} {ids(d['consequence']['components'])} {o(d['consequence'].get('id'))})")
+
+def run_cic(res, tier, rng):
+    n = 200 if tier == "quick" else 2500
+    cases = []
+    for _ in range(n):
+        d = gen_cic(rng)
+        orc = IdOracle()
+        try:
+            with orc:
+                m = pg.Imply.from_cicJE(json.loads(json.dumps(d)))
+        except Exception as e:
+            res.count("cic_build_error:" + type(e).__name__); continue
+        if is_var(m) or m.errors():
+            res.count("cic_skipped_invalid"); continue
+        res.count("cic_" + d["consequence"]["ruleType"]); res.count("cic_subconditions_%d" % len(d.get("condition", {}).get("subConditions", [])))
+        if len(d.get("condition", {}).get("subConditions", [])) >= 2:
+            res.nt("cic" + json.dumps(d, sort_keys=True))
+        lv = leaves_of(m)
+        for vals in itertools.product([0, 1], repeat=len(lv)):
+            env = {l.id: v for l, v in zip(lv, vals)}
+            full = {x: env.get(x, 0) for x in "abcdefg"}
+            res.evaluations += 1
+            want = cic_sem(d, full); got = m.evaluate(dict(env)).as_tuple()
+            if got != (want, want):
+                res.violation("oracle", f"from_cicJE({json.dumps(d)}) = {m!r} evaluates to {got} at {env}, the rule means {want}",
+                              {"op": "cic", "rule": d, "env": env, "required": want, "observed": list(got)})
+                break
+        cases.append((lambda it, d=d, m=m, orc=orc: f"({orc.term(it)}, {cic_term(d, it)}, {dump(m, it)})", (d,)))
+        res.sample({"rule": d, "model": repr(m)}, cap=8)
+    n1, failing, errs = run_case_shards("C04", "cic", "", "idtable * cic * prop", "check_cic", cases, imports="Puan.Plog Puan.Sem Puan.Corr Puan.Cons Puan.Cic Puan.CorrCons")
+    res.corr_cases += n1; res.evaluations += n1
+    for e in errs:
+        res.violation("corr", "correspondence shard failed: " + e, {"check": "CorrCons.check_cic", "error": e})
+    for i in failing[:10]:
+        (d,) = cases[i][1]
+        res.violation("corr", f"rule-dictionary model differs from implementation for {json.dumps(d)}: implementation built {canon(pg.Imply.from_cicJE(d))}",
+                      {"check": "CorrCons.check_cic", "rule": d, "failing_input_found": False})
+
 def run(res, tier, seed):
     rng = random.Random(seed * 1000003 + 4)
     res.rule = RULE
@@ -97,6 +185,7 @@ def run(res, tier, seed):
     res.corr_cases += n; res.evaluations += n
     for e in errs:
         res.violation("corr", "correspondence shard failed: " + e, {"check": "CorrCons.check_build", "error": e})
+    run_cic(res, tier, rng)
     for i in failing[:10]:
         (ast,) = cases[i][1]
         m = build(ast)
@@ -108,6 +197,11 @@ def run(res, tier, seed):
 
 def replay(payload):
     r = payload.get("replay", payload)
+    if r.get("op") == "cic":
+        m = pg.Imply.from_cicJE(r["rule"]); full = {x: r["env"].get(x, 0) for x in "abcdefg"}
+        got = m.evaluate(dict(r["env"])).as_tuple(); want = cic_sem(r["rule"], full)
+        print("rule", r["rule"], "model", m, "env", r["env"], "evaluates to", got, "rule means", want)
+        return 0 if got == (want, want) else 1
     m = build(r["model"])
     if "env" in r:
         got = m.evaluate(dict(r["env"])).as_tuple(); want = ast_sem(r["model"], r["env"])
